@@ -83,6 +83,7 @@ func ifaceOptionCase(ctx context.Context, rep *mon.Reporter, rng *mon.Rand) {
 		mu.Unlock()
 		expect := map[string][]string{}
 		invalid := ""
+		twoTypes := false
 		var opts []compose.Option
 		var desc []string
 		for i, n := 0, 1+rng.Intn(3); i < n; i++ {
@@ -100,6 +101,57 @@ func ifaceOptionCase(ctx context.Context, rep *mon.Reporter, rng *mon.Rand) {
 			}
 			o := compose.WithLambdaOption(val)
 			target := rng.Intn(4) // 0: undesignated, 1: an interface lambda, 2: a struct lambda, 3: the nested graph
+			if kind != 3 && rng.Prob(0.3) {
+				// ONE Option with a value for the interface lambdas and a value for the struct lambdas, in either
+				// order: undesignated or designated to the nested graph every value reaches the nodes of its
+				// type; designated to a lambda, one of the two is of the wrong type for it
+				var other any
+				otherTag, id2 := "", id+"x"
+				switch kind {
+				case 0, 1:
+					other, otherTag = plainOpt{id2}, "P:"+id2
+				default:
+					other, otherTag = tagA{id2}, "A:"+id2
+				}
+				vals, tags := []any{val, other}, []string{tag, otherTag}
+				if rng.Bool() {
+					vals, tags = []any{other, val}, []string{otherTag, tag}
+				}
+				o = compose.WithLambdaOption(vals...)
+				rep.Count("interface_option_two_types_in_one_option", 1)
+				twoTypes = true
+				put := func(keys []string) {
+					for _, t := range tags {
+						for _, k := range keys {
+							if (t[0] == 'P') == (k[0] == 's') {
+								expect[k] = append(expect[k], t)
+							}
+						}
+					}
+				}
+				switch target {
+				case 0:
+					desc = append(desc, fmt.Sprintf("%v:undesignated", tags))
+					put([]string{"i1", "i2", "i3", "s1", "s2"})
+				case 1, 2:
+					k := []string{"i1", "i2", "i3", "s1", "s2"}[rng.Intn(5)]
+					desc = append(desc, fmt.Sprintf("%v:->%s", tags, k))
+					p := ifaceNodes[k]
+					if p == nil {
+						p = structNodes[k]
+					}
+					o = o.DesignateNodeWithPath(compose.NewNodePath(p...))
+					if invalid == "" || invalid == "maybe" {
+						invalid = "one-of-two-values-of-wrong-type"
+					}
+				case 3:
+					desc = append(desc, fmt.Sprintf("%v:->sub", tags))
+					o = o.DesignateNode("sub")
+					put([]string{"i2", "s2"})
+				}
+				opts = append(opts, o)
+				continue
+			}
 			switch target {
 			case 0:
 				desc = append(desc, fmt.Sprintf("%d:undesignated", kind))
@@ -169,7 +221,11 @@ func ifaceOptionCase(ctx context.Context, rep *mon.Reporter, rng *mon.Rand) {
 			if invalid == "maybe" {
 				continue
 			}
-			rep.Violation(ID+"/interface-option/valid-option-refused", fmt.Sprintf("options %v (every value implements / is the option type of the node it is addressed to): %v", desc, rerr), wit)
+			cl := "valid-option-refused"
+			if twoTypes {
+				cl = "one-option-with-values-of-two-types/valid-call-failed"
+			}
+			rep.Violation(ID+"/interface-option/"+cl, fmt.Sprintf("options %v (every value implements / is the option type of the node it is addressed to): %v", desc, rerr), wit)
 			return
 		}
 		mu.Lock()
